@@ -69,6 +69,28 @@ def _safe(fn, *a):
         return float('nan')
 
 
+def _sincosd(x):
+    x = float(x)
+    if not math.isfinite(x):
+        return float('nan'), float('nan')
+    r = math.remainder(x, 360.0)
+    q = int(round(r / 90.0))
+    r -= 90.0 * q
+    s, c = math.sin(math.radians(r)), math.cos(math.radians(r))
+    s, c = ((s, c), (c, -s), (-s, -c), (-c, s))[q & 3]
+    return s + 0.0, c + 0.0
+
+
+# value summaries of the library's own elementary helpers (documented behaviour, Math.hpp), so that a constructor
+# which validates sind(lat)/cosd(lat) is interpreted on concrete witnesses instead of forking on unknowns
+LIBMATH = {
+    'GeographicLib::Math::sind': lambda x: _sincosd(x)[0],
+    'GeographicLib::Math::cosd': lambda x: _sincosd(x)[1],
+    'GeographicLib::Math::sq': lambda x: float(x) * float(x),
+    'GeographicLib::Math::LatFix': lambda x: float('nan') if abs(float(x)) > 90 else float(x),
+}
+
+
 def _sqrt(x):
     x = float(x)
     if math.isnan(x) or x < 0:
@@ -539,6 +561,11 @@ class Frame:
             if q.endswith('numeric_limits::min'):
                 return 2.2250738585072014e-308
             return UNK
+        if q in LIBMATH and len(vals) == 1 and _num(vals[0]) and not isunk(vals[0]):
+            try:
+                return LIBMATH[q](vals[0])
+            except (ValueError, OverflowError):
+                return UNK
         callee = self.ip.prog.fns.get(ce.get('usr'))
         if callee is None or self.depth + 1 > self.ip.max_depth or \
                 (len(callee.nodes) > self.ip.small and q not in self.ip.follow) or q in self.ip.nofollow:
